@@ -581,6 +581,9 @@ def hostile_forms():
     forms.append(("Drop tuple struct through the tuple arm", "    let v = G(t(0), t(1));\n    konst::destructure!{(a, b) = v}\n    drop((a, b));"))
     forms.append(("Box<tuple> through the tuple arm", "    let v = Box::new((t(0), t(1)));\n    konst::destructure!{(a, b) = v}\n    drop((a, b));"))
     forms.append(("ManuallyDrop<tuple> through the tuple arm", "    let v = core::mem::ManuallyDrop::new((t(0), t(1)));\n    konst::destructure!{(a, b) = v}\n    drop((a, b));"))
+    # a union: the macro would read whichever field is named, initialised or not (here: a bool over a 7)
+    forms.append(("generic union through the type form", "    union U<T: Copy> { a: T, b: bool }\n    let u = U::<u8> { a: 7 };\n    konst::destructure!{U<u8> {b} = u}\n    let n = unsafe { core::mem::transmute::<bool, u8>(b) };\n    if n > 1 { log(Ev::Corrupt(n as u32)); }"))
+    forms.append(("union through the path form", "    union V { a: u8, b: bool }\n    let u = V { a: 7 };\n    konst::destructure!{V {b} = u}\n    let n = unsafe { core::mem::transmute::<bool, u8>(b) };\n    if n > 1 { log(Ev::Corrupt(n as u32)); }"))
     # controls: the same skeleton by value must compile and conserve every element
     forms.append(("control: tuple by value", "    let v = (t(0), t(1));\n    konst::destructure!{(a, b): (Tok, Tok) = v}\n    drop((a, b));"))
     forms.append(("control: array by value", "    let v = [t(0), t(1), t(2)];\n    konst::destructure!{[a, rest @ ..]: [Tok; 3] = v}\n    drop(a); drop(rest);"))
@@ -623,7 +626,7 @@ def run_hostile(cx, out, hist):
     out.counters["hostile_forms_attempted"] = len(forms)
     out.counters["hostile_forms_compiled_and_executed"] = executed
     out.rules.append("hostile macro forms: one evaluation = one destructure! program that tries to move out of a reference / a Drop type / a smart pointer over ledger elements; rejected by rustc = nothing to execute; a program that compiles is run and its move/drop ledger audited (double drop, drop of an unknown element or corrupted payload = violation)")
-    out.exhaustive.append("hostile forms: {&mut, &} x {annotated, plain} x {tuple, 1-tuple, array, array with rest, braced struct, tuple struct}; Drop structs (braced/tuple, annotated/plain, through the tuple arm); Box / ManuallyDrop / Rc of a tuple through the tuple arm")
+    out.exhaustive.append("hostile forms: {&mut, &} x {annotated, plain} x {tuple, 1-tuple, array, array with rest, braced struct, tuple struct}; Drop structs (braced/tuple, annotated/plain, through the tuple arm); Box / ManuallyDrop / Rc of a tuple through the tuple arm; unions in the path and type forms")
 
 
 def strings():
